@@ -463,8 +463,8 @@ _L = []
 for _X in self.id_manager.free_betas.names:
     _V = beta_dict.get(_X)
     if _V is None:
-        _E = __MSG
-        raise BiogemeError(_E)
+        ___
+        raise BiogemeError(__MSG)
     _L.append(_V)
 return _L
 """)
